@@ -53,7 +53,7 @@ Definition Inv (c:pgncfg) (fs:list rxframe) (r:rnode) (D:list (list nat)) (ds:li
 Lemma Inv_same c fs r r' D ds : Inv c fs r D ds -> r_slots r' = r_slots r -> r_q r' = r_q r -> n_pgn (rn r') = n_pgn (rn r) -> Inv c fs r' D ds.
 Proof. intros (p & g & A & B & T & G & J) S Q N. exists p, g. rewrite S, Q, N. auto. Qed.
 Lemma Inv_same_rx c fs r r' D ds : Inv c fs r D ds -> same_rx r r' -> Inv c fs r' D ds.
-Proof. intros I (S & Q & N & _). eapply Inv_same; eauto. Qed.
+Proof. intros I (S & Q & N & _ & _). eapply Inv_same; eauto. Qed.
 Lemma Inv_clear c fs r r' D ds : Inv c fs r D ds -> r_slots r' = r_slots r -> r_q r' = [] -> n_pgn (rn r') = n_pgn (rn r) -> Inv c fs r' D ds.
 Proof.
   intros (p & g & A & B & T & G & J) S Q N. exists fs, g. rewrite S, Q, N, app_nil_r. subst fs. split; [reflexivity|]. split; [auto|]. split; [|split].
@@ -87,7 +87,7 @@ Proof.
   destruct (idx <? nslots r1) eqn:Hlt.
   - destruct (Rdy eq_refl) as [I0 Rdy']. clear Rdy.
     know (handle_system gf (chk_slot r1 idx) (get_slot (chk_slot r1 idx) idx)).
-    destruct (handle_system gf (chk_slot r1 idx) (get_slot (chk_slot r1 idx) idx)) as [r2 ev2]. destruct K as [(S2 & Q2 & N2 & C2) Hd2].
+    destruct (handle_system gf (chk_slot r1 idx) (get_slot (chk_slot r1 idx) idx)) as [r2 ev2]. destruct K as [(S2 & Q2 & N2 & C2 & W2) Hd2].
     cbn [fst snd] in *. autorewrite with rxs in *.
     assert (Hg2 : get_slot r2 idx = get_slot r1 idx) by (unfold get_slot; rewrite S2; reflexivity).
     rewrite Hg2. set (s := get_slot r1 idx) in *.
@@ -135,7 +135,7 @@ Proof.
   intros Hgf I. unfold poll.
   assert (Hopen : exists r1 ev0 opened, (if n_open (rn r) =? 3 then (r, [], true) else open_step r) = (r1, ev0, opened) /\ Inv c fs r1 D ds /\ dlv_of ev0 = []).
   { destruct (n_open (rn r) =? 3). - exists r, [], true. auto.
-    - pose proof (open_step_k r) as K. cbv zeta in K. destruct (open_step r) as [[r1 ev0] opened]. cbn [fst snd] in K. destruct K as (S & Q & N & _ & Dl).
+    - pose proof (open_step_k r) as K. cbv zeta in K. destruct (open_step r) as [[r1 ev0] opened]. cbn [fst snd] in K. destruct K as (S & Q & N & _ & _ & Dl).
       exists r1, ev0, opened. repeat split; auto. destruct Q as [Q|Q]; [eapply Inv_same | eapply Inv_clear]; eauto. }
   destruct Hopen as (r1 & ev0 & opened & -> & I1 & D0).
   destruct (negb (opened && (n_open (rn r1) =? 3))).
@@ -158,16 +158,18 @@ Lemma rstep_inv c fs gf r o D ds : gf_ok gf -> Inv c fs r D ds ->
   exists D', Inv c (fs ++ frames_of [o]) (fst (rstep gf r o)) (D ++ D') (ds ++ fp_dlv (snd (rstep gf r o))).
 Proof.
   intros Hgf I.
-  assert (Quiet : forall r' ev, same_rx r r' -> dlv_of ev = [] -> frames_of [o] = [] ->
+  assert (Quiet : forall r' ev, r_slots r' = r_slots r /\ r_q r' = r_q r /\ n_pgn (rn r') = n_pgn (rn r) -> dlv_of ev = [] -> frames_of [o] = [] ->
                   exists D', Inv c (fs ++ frames_of [o]) r' (D ++ D') (ds ++ fp_dlv ev)).
-  { intros r' ev S E F. exists []. rewrite F, (fp_dlv_nil _ E), !app_nil_r. eapply Inv_same_rx; eauto. }
+  { intros r' ev (S & Q & N) E F. exists []. rewrite F, (fp_dlv_nil _ E), !app_nil_r. eapply Inv_same; eauto. }
+  assert (Weak : forall r', same_rx r r' -> r_slots r' = r_slots r /\ r_q r' = r_q r /\ n_pgn (rn r') = n_pgn (rn r)).
+  { intros r' (S & Q & N & _). auto. }
   destruct o as [o'| |f|iv off idev]; cbn [rstep].
   - assert (Plain : exists D', Inv c (fs ++ frames_of [RBase o']) (fst (let '(n', ev) := step (rn r) o' in (with_rn r n', ev))) (D ++ D')
                                (ds ++ fp_dlv (snd (let '(n', ev) := step (rn r) o' in (with_rn r n', ev))))).
-    { know (step (rn r) o'). destruct (step (rn r) o') as [n' ev]. destruct K as [K1 K2]. cbn [fst snd] in *. apply Quiet; auto. repeat split; auto. }
+    { know (step (rn r) o'). destruct (step (rn r) o') as [n' ev]. destruct K as [K1 K2]. cbn [fst snd] in *. apply Quiet; auto. }
     destruct o' as [dt|pat|i m| |i]; try exact Plain.
     destruct (n_open (rn r) =? 3); [exact Plain|].
-    pose proof (open_step_k r) as K. cbv zeta in K. destruct (open_step r) as [[r1 ev0] opened]. cbn [fst snd] in K. destruct K as (S & Q & N & C & Dl).
+    pose proof (open_step_k r) as K. cbv zeta in K. destruct (open_step r) as [[r1 ev0] opened]. cbn [fst snd] in K. destruct K as (S & Q & N & C & _ & Dl).
     assert (I1 : Inv c fs r1 D ds) by (destruct Q as [Q|Q]; [eapply Inv_same | eapply Inv_clear]; eauto).
     destruct (opened && (n_open (rn r1) =? 3)).
     + know (step (rn r1) (OSend i m)). destruct (step (rn r1) (OSend i m)) as [n' ev]. destruct K as [K1 K2]. cbn [fst snd frames_of flat_map app] in *.
@@ -175,10 +177,10 @@ Proof.
     + cbn [fst snd frames_of flat_map app]. exists []. rewrite fp_dlv_app, (fp_dlv_nil _ Dl). cbn. rewrite ?app_nil_r. exact I1.
   - cbn [frames_of flat_map app]. rewrite app_nil_r. apply poll_inv; auto.
   - cbn [fst snd frames_of flat_map app]. exists []. rewrite !app_nil_r. apply Inv_rx. exact I.
-  - destruct ((iv =? 4294967295) && (off =? 65535)); [apply Quiet; auto; apply same_rx_refl|].
+  - destruct ((iv =? 4294967295) && (off =? 65535)); [apply Quiet; auto|].
     destruct (idev <? 0).
     + know (set_heartbeat_all (length (n_devs (rn r))) r 0 iv off). apply Quiet; auto.
-    + destruct (idev <? dev_count (rn r)); [|apply Quiet; auto; apply same_rx_refl].
+    + destruct (idev <? dev_count (rn r)); [|apply Quiet; auto].
       know (set_heartbeat_all 1 r idev iv off). apply Quiet; auto.
 Qed.
 
